@@ -3,8 +3,8 @@ SPEC = {
     'engine': 'send', 'harness': 'send.cpp',
     'repo_srcs': ['N2kMsg.cpp', 'N2kStream.cpp', 'N2kMessages.cpp', 'N2kTimer.cpp', 'N2kGroupFunction.cpp', 'N2kGroupFunctionDefaultHandlers.cpp', 'NMEA2000.cpp'],
     'variants': ['', 't32'],
-    'lean_modules': ['N2k.Props.Consts.C04', 'N2k.Props.C04'], 'props_files': ['N2k/Props/Consts/C04.lean', 'N2k/Props/C04.lean'],
-    'translators': ['constants', 'pgn_tables'],
+    'lean_modules': ['N2k.Props.Consts.C04', 'N2k.Props.CallGraph', 'N2k.Props.C04'], 'props_files': ['N2k/Props/Consts/C04.lean', 'N2k/Props/CallGraph.lean', 'N2k/Props/C04.lean'],
+    'translators': ['constants', 'pgn_tables', 'callgraph'],
     'case_start': ['reset', 'reset0'],
     # the whole-node traffic generator (requests, group functions, TP, claims, heartbeat) carries a C04 monitor as well
     'extra': [{'engine': 'fuzz', 'harness': 'fuzz.cpp', 'no_model': True, 'variants': ['', 't32'], 'asan_options': ':redzone=1024',
@@ -16,7 +16,7 @@ SPEC = {
                      "flushed inside it are outside the gate (counted, not flagged)"],
     'assumptions': ["dm_None (debug modes print to the forward stream and put nothing on the bus)",
                     "received requests / group functions / TP frames that trigger sends go through the same SendMsg gate "
-                    "(structural: every CANSendFrame call is reached from SendFrame/SendFrames only); their handlers are modelled "
+                    "(checked on every run: N2k/Props/CallGraph.lean over the call sites extracted from the clang AST - CANSendFrame is called only by SendFrame/SendFrames, SendFrame only by SendMsg); their handlers are modelled "
                     "with C08-C10, not here", "devices start with a real address (null-address restart is C03)"],
 }
 MANIFEST = {
